@@ -28,10 +28,10 @@ def scalarToJson : Scalar → Json
 
 def kindOfStr : String → Except String TorchKind
   | "tensor" => pure .tensor | "parameter" => pure .parameter | "optimizer" => pure .optimizer
-  | "scheduler" => pure .scheduler | "module" => pure .module | k => throw s!"kind {k}"
+  | "scheduler" => pure .scheduler | "module" => pure .module | "other" => pure .other | k => throw s!"kind {k}"
 def kindToStr : TorchKind → String
   | .tensor => "tensor" | .parameter => "parameter" | .optimizer => "optimizer"
-  | .scheduler => "scheduler" | .module => "module"
+  | .scheduler => "scheduler" | .module => "module" | .other => "other"
 
 partial def valOfJson (j : Json) : Except String Val := do
   let a ← j.getArr?
